@@ -8,6 +8,7 @@ section is validated by the concurrent driver against the real server (partial).
 import Chokan.Model.Runtime
 import Chokan.Model.Server
 import Chokan.Lemmas.Conc
+import Chokan.Lemmas.Fine
 
 namespace Chokan.Props.C14
 open Chokan.Runtime Chokan.Gen.Server
@@ -222,5 +223,108 @@ example :
     (∀ p ∈ reqs, ∃ h ∈ handlerPaths, p ∈ h.2) ∧ reqs.length = 5 ∧
     ((Chokan.Conc.run (Chokan.Conc.initSt chanUnbounded (fun _ => 0) reqs taskPaths) [(0, 0), (2, 0), (1, 0)]).threads.map
         (·.held)) = [[.dictionary], [], [.store], [], [], [], [], []] := by decide
+
+
+/-! ## the interleaving model with data (Model/Fine): handlers are atomic steps, and their critical sections are isolated -/
+
+open Chokan.Conc Chokan.Fine in
+/-- The data-touching events of the extracted bodies are the ones the atomic steps of Model/Server are made of: a
+converting handler computes, stores the session, answers; the confirmation (every conditional entered) pops, updates
+the count, learns the compound, queues it, answers; a registration queues and answers; one updater iteration takes an
+entry, records it, merges it; one saver iteration waits for the tick and saves.  And every action of every path runs
+while the locks that protect its data are held. -/
+theorem C14_fine_shapes :
+    ((convertingPaths handlerPaths).all fun p => dataEvents p == [.act .compute, .act .addSession, .respond]) = true ∧
+    (((handlerMain.filter (·.1 == "UpdateFrequency")).map (·.2)).all fun p =>
+      dataEvents p == [.act .popSession, .act .updFreq, .act .updCompound, .send .entry, .respond]) = true ∧
+    ((pathsOf "RegisterWord" handlerPaths).all fun p => dataEvents p == [.send .entry, .respond]) = true ∧
+    ((taskMain.filter (·.contains (.recv .entry))).all fun p =>
+      dataEvents p == [.recv .entry, .act .addEntry, .act .loopStart, .act .trieInsert, .act .mapInsert, .act .loopEnd]) = true ∧
+    ((taskMain.filter (·.contains (.act .saveFiles))).all fun p => dataEvents p == [.recv .tick, .act .saveFiles]) = true ∧
+    (handlerPaths.all fun h => h.2.all (guarded [])) = true ∧ (taskPaths.all fun ps => ps.all (guarded [])) = true ∧
+    [(convertingPaths handlerPaths).length, ((handlerMain.filter (·.1 == "UpdateFrequency")).map (·.2)).length,
+      (pathsOf "RegisterWord" handlerPaths).length, (taskMain.filter (·.contains (.recv .entry))).length,
+      (taskMain.filter (·.contains (.act .saveFiles))).length] = [2, 1, 1, 1, 1] := by decide
+
+open Chokan.Conc Chokan.Fine Chokan.Server Chokan.Kkc Chokan.Dic in
+/-- **Each handler, run with nothing in between, is the atomic step of the server model** — so the histories of atomic
+steps that C05, C06, C08, C14, C15 and C20 reason about are exactly the executions in which critical sections do not
+overlap. (conversion) -/
+theorem C14_fine_convert_is_atomic (c : Cfg) (p : List Ev) (hp : p ∈ convertingPaths handlerPaths)
+    (s s' : State) (ctx : Ctx) (input : Str) (sid : Nat) (cs : List Cand) (h : convert c s ctx input = some (s', sid, cs)) :
+    (runAlone c p { req := .conv ctx input } s).2 = s' ∧ (runAlone c p { req := .conv ctx input } s).1.cands = cs ∧
+    (runAlone c p { req := .conv ctx input } s).1.stored = some ⟨sid, ctx, cs⟩ := by
+  have hs := List.all_eq_true.1 C14_fine_shapes.1 p hp
+  have := alone_convert c p (by simpa using hs) s s' ctx input sid cs h
+  exact ⟨this.1, this.2.1, this.2.2.1⟩
+
+open Chokan.Conc Chokan.Fine Chokan.Server in
+/-- (confirmation, registration, one updater iteration, one saver iteration) -/
+theorem C14_fine_others_are_atomic (c : Cfg) (s : State) :
+    (∀ p ∈ (handlerMain.filter (·.1 == "UpdateFrequency")).map (·.2), ∀ sid id now,
+      (runAlone c p { req := .confirm sid id now } s).2 = confirmId c s sid id now) ∧
+    (∀ p ∈ pathsOf "RegisterWord" handlerPaths, ∀ kind reading word,
+      (runAlone c p { req := .register kind reading word } s).2 = (register c s kind reading word).getD s) ∧
+    (∀ p ∈ taskMain.filter (·.contains (.recv .entry)),
+      (∀ e, s.pending.head? = some e → (mergeEntry c s.dict e).isSome = true) →
+      some (runAlone c p { req := .other } s).2 = applyEntry c s) ∧
+    (∀ p ∈ taskMain.filter (·.contains (.act .saveFiles)), (runAlone c p { req := .other } s).2 = save c s) := by
+  obtain ⟨_, h2, h3, h4, h5, _⟩ := C14_fine_shapes
+  refine ⟨?_, ?_, ?_, ?_⟩
+  · intro p hp sid id now
+    exact alone_confirm c p (by simpa using List.all_eq_true.1 h2 p hp) s sid id now
+  · intro p hp kind reading word
+    exact alone_register c p (by simpa using List.all_eq_true.1 h3 p hp) s kind reading word
+  · intro p hp hok
+    exact alone_apply c p (by simpa using List.all_eq_true.1 h4 p hp) s hok
+  · intro p hp
+    exact alone_save c p (by simpa using List.all_eq_true.1 h5 p hp) s
+
+open Chokan.Conc Chokan.Fine in
+theorem frun_st (c : Chokan.Server.Cfg) (sched : List (Nat × Nat)) : ∀ d : FSt, (frun c d sched).st = run d.st sched := by
+  induction sched with
+  | nil => intro d; rfl
+  | cons a t ih =>
+    intro d
+    show (frun c (fstep c d a) t).st = run (step d.st a) t
+    rw [ih]
+    congr 1
+    unfold fstep
+    split <;> rfl
+
+open Chokan.Conc Chokan.Fine in
+/-- **Critical sections are isolated, under every interleaving.**  Any number of concurrent requests (paths of the
+extracted handlers) with the background loops, any schedule of the model with data: while one thread holds a lock, no
+other thread is at an action on the data that lock protects — the sections of one lock never overlap, so what a
+thread reads and writes under a lock is not touched by anyone else until it releases it. -/
+theorem C14_fine_isolation (c : Chokan.Server.Cfg) (reqs : List (List Ev × Req)) (hreq : ∀ r ∈ reqs, ∃ h ∈ handlerPaths, r.1 ∈ h.2)
+    (capOf : Chan → Nat) (s0 : Chokan.Server.State) (sched : List (Nat × Nat)) (i j : Nat) (ti tj : Thread)
+    (hi : (frun c (finit chanUnbounded capOf reqs taskPaths s0) sched).st.threads[i]? = some ti)
+    (hj : (frun c (finit chanUnbounded capOf reqs taskPaths s0) sched).st.threads[j]? = some tj) (hij : i ≠ j)
+    (l : Lock) (hl : l ∈ ti.held) (b : Act) (r : List Ev) (hr : tj.rest = .act b :: r) : l ∉ protects b := by
+  rw [frun_st] at hi hj
+  have hreq' : ∀ p ∈ reqs.map (·.1), ∃ h ∈ handlerPaths, p ∈ h.2 := by
+    intro p hp
+    obtain ⟨r, hr, rfl⟩ := List.mem_map.1 hp
+    exact hreq r hr
+  have hinv := (conc_inv (reqs.map (·.1)) hreq' capOf sched).1
+  obtain ⟨_, _, _, _, _, hgh, hgt, _⟩ := C14_fine_shapes
+  have hg : GInv (run (initSt chanUnbounded capOf (reqs.map (·.1)) taskPaths) sched) := by
+    refine GInv_run (rank := lockRank) sched (Inv_init lockRank _ _ _ _ ?_ ?_) (GInv_init _ _ _ _ ?_ ?_)
+    · intro p hp
+      obtain ⟨h, hh, hph⟩ := hreq' p hp
+      have := C14_conc_discipline.1
+      simp only [List.all_eq_true, Bool.and_eq_true] at this
+      exact (this h hh p hph).1
+    · intro ps hps p hp
+      have := C14_conc_discipline.2
+      simp only [List.all_eq_true] at this
+      exact this ps hps p hp
+    · intro p hp
+      obtain ⟨h, hh, hph⟩ := hreq' p hp
+      exact List.all_eq_true.1 (List.all_eq_true.1 hgh h hh) p hph
+    · intro ps hps p hp
+      exact List.all_eq_true.1 (List.all_eq_true.1 hgt ps hps) p hp
+  exact isolated hinv hg i j ti tj hi hj hij l hl b r hr
 
 end Chokan.Props.C14
